@@ -819,13 +819,15 @@ static void check_query(const struct rpdu *p)
 				violation(key, what);
 			}
 		} else if (p->type == PT_RESET_QUERY && MON.have) {
-			/* accepted whenever the socket holds no data (first sentence of the statement) */
-			if (mask || foreign) {
-				snprintf(what, sizeof(what),
-					 "a Reset Query was sent although the socket holds data (mask %#x) of a completed exchange (session %u serial %u) and nothing required a reset",
-					 mask, MON.sess, MON.sn);
-				violation("reset-query-with-state", what);
-			}
+			/*
+			 * a completed exchange (session, serial) stands and none of the events that call for a Reset Query
+			 * (Cache Reset answer, no-data error, expiry, stop/start) has happened since: the query had to be
+			 * the Serial Query - whether or not the client has meanwhile thrown its records away
+			 */
+			snprintf(what, sizeof(what),
+				 "a Reset Query was sent although a completed exchange stands (session %u serial %u; the socket's records now: mask %#x) and nothing required a reset",
+				 MON.sess, MON.sn, mask);
+			violation(mask || foreign ? "reset-query-with-state" : "reset-query-without-cause", what);
 			MON.have = false;
 		}
 	}
